@@ -57,6 +57,12 @@ namespace Tins {
 
 const uint8_t IP::DEFAULT_TTL = 128;
 
+// Only the END (0) and NOOP (1) type octets identify single byte options. This
+// has to match what write_option does.
+static bool is_single_byte_option(const IP::option_identifier& id) {
+    return id.copied == 0 && id.op_class == IP::CONTROL && id.number <= IP::NOOP;
+}
+
 PDU::metadata IP::extract_metadata(const uint8_t *buffer, uint32_t total_sz) {
     if (TINS_UNLIKELY(total_sz < sizeof(ip_header))) {
         throw malformed_packet();
@@ -87,7 +93,7 @@ IP::IP(const uint8_t* buffer, uint32_t total_sz) {
     // While the end of the options is not reached read an option
     while (stream.pointer() < options_end) {
         option_identifier opt_type = (option_identifier)stream.read<uint8_t>();
-        if (opt_type.number > NOOP) {
+        if (!is_single_byte_option(opt_type)) {
             // Multibyte options with length as second byte
             const uint32_t option_size = stream.read<uint8_t>();
             if (TINS_UNLIKELY(option_size < (sizeof(uint8_t) << 1))) {
@@ -324,7 +330,7 @@ uint32_t IP::calculate_options_size() const {
         options_size += sizeof(uint8_t);
         const option_identifier option_id = iter->option();
         // Only add length field and data size for non [NOOP, EOL] options
-        if (option_id.op_class != CONTROL || option_id.number > NOOP) {
+        if (!is_single_byte_option(option_id)) {
             options_size += sizeof(uint8_t) + iter->data_size();
         }
     }
